@@ -84,6 +84,14 @@ class JaxDiscreteField(object):
     def __getitem__(self, index):
         return self.value[index]
 
+    # without these Python falls back to indexing until IndexError, which
+    # jax (clamping the index) never raises: 'x, y = w.x' must work
+    def __iter__(self):
+        return iter(self.value)
+
+    def __len__(self):
+        return len(self.value)
+
     @property
     def shape(self):
         return self.value.shape
